@@ -176,7 +176,9 @@ def get_compact_representation(
                 _row.append("fixed")
             else:  # parameter is not fixed, round and add errors
                 _sig_fig_err = max(2, -int(np.log10(np.abs(_par_err))) + 1)
-                _sig_fig_val = max(_sig_fig_err, -int(np.log10(np.abs(_par_val))) + 2)
+                _sig_fig_val = _sig_fig_err
+                if _par_val != 0.0:  # a value of exactly zero (e.g. at a limit) has no leading digit
+                    _sig_fig_val = max(_sig_fig_err, -int(np.log10(np.abs(_par_val))) + 2)
                 _row.append(round(_par_val, _sig_fig_val))
                 _row.append(round(_par_err, _sig_fig_err))
             if asymmetric_parameter_errors is not None:
